@@ -3,6 +3,7 @@
 package main
 
 import (
+	"runtime"
 	"bytes"
 	"fmt"
 	"math/big"
@@ -103,13 +104,27 @@ func (c *Ctx) identityKeys() []crypto.PublicKey {
 	return []crypto.PublicKey{crypto.IdentityBLSPublicKey(), agg, dec, aggsk.PublicKey(), rmAll, rmSelf, decc}
 }
 
+// verifyAns: the verdict of Verify; the same call is made three times in a row on one OS thread and the three verdicts
+// must coincide (a memo of the last signature checked, filled before the check and kept when it fails, lets the second
+// submission of a rejected string through)
 func verifyAns(pk crypto.PublicKey, sig, msg []byte, h hash.Hasher) string {
 	return guard(func() string {
-		ok, err := pk.Verify(sig, msg, h)
-		if err != nil {
-			return "err " + errClass(err)
+		runtime.LockOSThread()
+		defer runtime.UnlockOSThread()
+		var first string
+		for rep := 0; rep < 3; rep++ {
+			ok, err := pk.Verify(sig, msg, h)
+			v := fmt.Sprint(ok)
+			if err != nil {
+				v = "err " + errClass(err)
+			}
+			if rep == 0 {
+				first = v
+			} else if v != first {
+				return fmt.Sprintf("unstable: %s then %s (submission %d)", first, v, rep+1)
+			}
 		}
-		return fmt.Sprint(ok)
+		return first
 	})
 }
 
